@@ -8,6 +8,7 @@ mod c06;
 mod c08;
 mod c09;
 mod c11;
+mod c16;
 mod conv;
 mod corpus;
 mod isa_sweep;
@@ -26,6 +27,7 @@ fn main() {
         "C08" => c08::run(),
         "C09" => c09::run(),
         "C11" => c11::run(),
+        "C16" => c16::run(),
         "C15" => c01::run(c01::Mode::C15),
         _ => {
             eprintln!("MACHINERY-ERROR unknown property id '{}'", id);
